@@ -87,6 +87,25 @@ impl OwnedEntry {
     }
 }
 
+/// Makes sure that a directory is registered, and listed exactly once in its
+/// parent directory (which is registered too if needed, up to the root).
+///
+/// Archives do not have to contain entries for directories.
+fn ensure_dir(dirs: &mut HashMap<SharedString, Vec<OwnedEntry>>, id: &str) {
+    if dirs.contains_key(id) {
+        return;
+    }
+    let id = SharedString::from(id);
+    dirs.insert(id.clone(), Vec::new());
+
+    if let Some(parent_id) = DirEntry::Directory(&id).parent_id() {
+        ensure_dir(dirs, parent_id);
+        if let Some(parent) = dirs.get_mut(parent_id) {
+            parent.push(OwnedEntry::Dir(id));
+        }
+    }
+}
+
 /// Register a file of an archive in maps.
 fn register_file(
     file: ZipFile,
@@ -125,18 +144,18 @@ fn register_file(
         let id = id_builder.join();
 
         // Register the file in the maps.
-        let entry = if file.is_file() {
+        if file.is_file() {
             let ext = extension_of(path)?.into();
             let desc = FileDesc(id, ext);
-            files.insert(desc.clone(), index);
-            OwnedEntry::File(desc)
-        } else {
-            if !dirs.contains_key(&id) {
-                dirs.insert(id.clone(), Vec::new());
+            ensure_dir(dirs, &parent_id);
+            if files.insert(desc.clone(), index).is_none() {
+                if let Some(dir) = dirs.get_mut(&parent_id) {
+                    dir.push(OwnedEntry::File(desc));
+                }
             }
-            OwnedEntry::Dir(id)
-        };
-        dirs.entry(parent_id).or_default().push(entry);
+        } else {
+            ensure_dir(dirs, &id);
+        }
 
         Some(())
     })()
@@ -233,6 +252,9 @@ where
         let mut files = HashMap::with_capacity(len);
         let mut dirs = HashMap::new();
         let mut id_builder = IdBuilder::default();
+
+        // The root always exists, even in an empty archive
+        ensure_dir(&mut dirs, "");
 
         for index in 0..len {
             let file = archive.by_index(index)?;
